@@ -130,8 +130,10 @@ pub fn y_cls(kind: usize, k: usize, n: usize, i: usize, seed: u64) -> usize {
 /// Real-valued label tables (letter -> original label value): span = k-1 without unit spacing
 /// (three of them, one with k = 4 whose upper three labels again span k-1), unit spacing with a
 /// fractional offset, two labels with the same integer part, large labels with unit / non-unit gaps.
-pub const REAL_TABLES: [&[f64]; 6] =
-    [&[0.0, 0.5, 2.0], &[1.0, 1.5, 3.0], &[-1.5, -0.5, 0.25, 1.5], &[0.5, 1.5, 2.5], &[0.25, 0.75], &[300_000_001.0, 300_000_002.0, 300_000_005.0]];
+/// (the last two: distinct labels closer together than machine epsilon — 0 / 1e-17 and the adjacent
+/// doubles 0.3 / 0.1+0.2 — which a tolerant de-duplication of the class table would merge)
+pub const REAL_TABLES: [&[f64]; 8] =
+    [&[0.0, 0.5, 2.0], &[1.0, 1.5, 3.0], &[-1.5, -0.5, 0.25, 1.5], &[0.5, 1.5, 2.5], &[0.25, 0.75], &[300_000_001.0, 300_000_002.0, 300_000_005.0], &[0.0, 1e-17, 4.0], &[0.3, 0.30000000000000004, 1.0]];
 
 /// Label of letter `l` in table `t`; `seed` rotates the letter -> label assignment (seed 0: identity).
 pub fn table_label(t: usize, l: usize, seed: u64) -> f64 {
